@@ -6,3 +6,4 @@ pub mod util;
 
 pub mod c05;
 pub mod c15;
+pub mod c57;
